@@ -1000,7 +1000,9 @@ class HistGen:
         fmt = rng.randrange(2)
         validating = rng.random() < 0.5
         p_bad = 0.0 if rng.random() < 0.7 else 0.15
-        tops = self.tg.data_tops(p_bad=p_bad, density=rng.choice((0.25, 0.45, 0.7)))
+        if self.stream == "whendel":
+            validating, p_bad = rng.random() < 0.9, 0.0
+        tops = self.tg.data_tops(p_bad=p_bad, density=rng.choice((0.25, 0.45, 0.7)) if self.stream != "whendel" else rng.choice((0.7, 0.9)))
         if validating or rng.random() < 0.5:
             repair(tops, self.schema, self.values, rng)
         if validating:
@@ -1016,7 +1018,7 @@ class HistGen:
         elif validating:
             vopts |= V_MULTI
         d = self.doc.json_doc(tops) if fmt else self.doc.xml_doc(tops)
-        bad = rng.random() < (0.22 if self.stream != "multierr" else 0.5)
+        bad = rng.random() < (0.22 if self.stream != "multierr" else 0.5) and self.stream != "whendel"
         if bad:
             d = corrupt(rng, d, fmt)
         self.emit("parse:%s:%s" % ("json" if fmt else "xml", "malformed" if bad else ("invalid-values" if p_bad else "valid")),
@@ -1284,6 +1286,11 @@ class HistGen:
                 c = [i for i in all_insts(tops) if i.sn.kind == "leaf-list" or (i.sn.kind == "leaf" and i.parent is not None and i.sn.name in i.parent.sn.keys)]
             else:
                 c = [i for i in all_insts(tops) if i.sn.kind == "leaf" and not (i.parent is not None and i.sn.name in i.parent.sn.keys)]
+            if self.stream == "whendel" and rng.random() < 0.7:
+                # a leaf that a sibling's `when` reads
+                dep = [i for i in c if i.parent is not None and any(
+                    re.search(r"\.\./(?:[\w-]+:)?%s\b" % re.escape(i.sn.name), x.sn.st.arg_of("when") or "") for x in i.parent.children)]
+                c = dep or c
             if c:
                 i = rng.choice(c)
                 target, sn = inst_path(i), i.sn
@@ -1560,6 +1567,31 @@ class HistGen:
     FAMILIES = [("g_parse", 14), ("g_parse_sub", 3), ("g_roundtrip", 3), ("g_parse_op", 3), ("g_new_path", 10), ("g_new_node", 13), ("g_meta", 4), ("g_change", 7),
                 ("g_dup", 7), ("g_merge", 6), ("g_diff", 7), ("g_validate", 6), ("g_free", 9), ("g_insert", 6), ("g_find", 11), ("g_any_copy", 2), ("g_misc", 3)]
 
+    def whendel_prefix(self):
+        """the tree just parsed was validated with its `when` conditions true: make one of them false and validate again"""
+        rng = self.rng
+        for s, tops in list(self.known.items()):
+            c = []
+            for i in all_insts(tops):
+                w = i.sn.st.arg_of("when")
+                m = re.fullmatch(r"\.\./([\w:-]+)(?: = '(\w+)')?", w) if (w and i.parent is not None) else None
+                if m:
+                    dep = next((x for x in i.parent.children if x.sn.name == m.group(1).rpartition(":")[2]), None)
+                    if dep is not None and dep.sn.kind == "leaf":
+                        c.append((i, dep, m.group(2)))
+            if not c:
+                continue
+            i, dep, val = rng.choice(c)
+            p = inst_path(dep)
+            if not p:
+                continue
+            if val is not None:
+                self.emit("whendel:change-dependency:%s" % i.sn.name, O("ct", s, p, rng.choice(("off", "x", "b")), 0))
+            else:
+                self.emit("whendel:free-dependency:%s" % i.sn.name, O("ft", s, p))
+            self.emit("validate:all", O("va", s, rng.choice((V_PRESENT, 0, V_PRESENT | V_NOSTATE)), 0))
+            return
+
     def history(self, stream="main", nops=None):
         rng = self.rng
         self.begin(rng.randrange(NSETS), stream)
@@ -1585,8 +1617,14 @@ class HistGen:
             fams += ["g_parse"] * 30
         if stream == "subval":
             fams += ["g_parse_sub"] * 30
+        if stream == "whendel":
+            # validated data whose `when` conditions hold, then the node the conditions read is changed and the data are
+            # validated again: auto-delete of when-false nodes (also typed ones waiting in the unres sets)
+            fams += ["g_change"] * 14 + ["g_validate"] * 14 + ["g_parse"] * 4
         # start with something alive
         self.g_parse()
+        if stream == "whendel":
+            self.whendel_prefix()
         while len(self.ops) < nops:
             if rng.random() < 0.012:
                 self.g_schema(False)
@@ -2074,7 +2112,7 @@ def run_life(cx, workers=None):
     n = int(os.environ.get("VERIF_LIFE_N", "0")) or cx.n(2200, 30000)
     for i in range(n):
         x = rng.random()
-        stream = "f19" if x < 0.12 else "f111" if x < 0.15 else "multierr" if x < 0.18 else "lrlink" if x < 0.20 else "opaq" if x < 0.32 else "subval" if x < 0.34 else "main"
+        stream = "f19" if x < 0.12 else "f111" if x < 0.15 else "multierr" if x < 0.18 else "lrlink" if x < 0.20 else "opaq" if x < 0.32 else "subval" if x < 0.34 else "whendel" if x < 0.40 else "main"
         si, co, ops, kinds = gen.history(stream)
         # LeakSanitizer runs whenever the byte balance of the heap is off; on top of that it is forced for a sample
         if rng.random() < (0.25 if cx.tier == "thorough" else 0.05):
